@@ -1,4 +1,5 @@
 import InTotoModel.Lemmas.Events
+import InTotoModel.Generated.Pipeline
 /-
   C08 — Inspections run only after a layout's steps verify, and their failure is fatal.
 
@@ -102,5 +103,22 @@ theorem c08_inspection_rules_enforced {env : Env K} {ord : Ord}
     exact itemRules_ok p.hrules _ (List.mem_map.mpr ⟨st, hst, rfl⟩)
   · intro i hi
     exact itemRules_ok p.hirules _ (List.mem_map.mpr ⟨i, hi, rfl⟩)
+
+/-- **Tie to the source.**  `Generated.pipelineStages` is read from the body of `in_toto_verify`
+    (src/verifylib.rs) on every run by translate/pipeline.py.  The source has exactly the stages of
+    the model `verify`, in the model's order - in particular the artifact rules of the steps are
+    checked before any inspection is run, and the inspections' rules after - every stage is
+    straight-line code of the function body (no stage is conditional) and propagates its error, and
+    the only `return` is the "not a layout" rejection. -/
+theorem c08_source_has_the_modelled_stage_order :
+    Generated.pipelineStages.map (fun s => (s.callee, s.firstArg)) =
+      [("verify_layout_signatures", "layout"), ("verify_layout_expiration", "layout"),
+       ("load_links_for_layout", "layout"), ("verify_link_signature_thresholds", "layout"),
+       ("verify_sublayouts", "layout"), ("verify_all_steps_command_alignment", "layout"),
+       ("verify_threshold_constraints", "layout"), ("reduce_chain_links", "link_files"),
+       ("verify_all_item_rules", "steps"), ("run_all_inspections", "layout"),
+       ("verify_all_item_rules", "inspects"), ("get_summary_link", "layout")] ∧
+    Generated.pipelineStages.all (fun s => s.propagates && s.depth == 0) = true ∧
+    Generated.pipelineReturns.length = 1 := by decide
 
 end InToto.Verify
